@@ -173,6 +173,17 @@ func c13Cases() []buildCase {
 			rr(f)
 			addService(f, service("S", method("GetA", ".t.v1.Req", ".t.v1.A"), method("GetB", ".t.v1.Req", ".t.v1.B"), method("GetC", ".t.v1.Req", ".t.v1.C")))
 		}),
+		one("annotations that only restate the defaults", func(f M) {
+			// every annotation set to the value that means "standard proto3 JSON": nothing to convert, so an emitter that still
+			// writes a codec file for such a message imports packages no emitted line uses
+			addMessage(f, message("Meta", field("k", "string")))
+			addMessage(f, message("D", withOpt(msgField("at", ts), "sebuf.http.timestamp_format", "TIMESTAMP_FORMAT_RFC3339"), msgField("plain_at", ts),
+				withOpt(field("blob", "bytes"), "sebuf.http.bytes_encoding", "BYTES_ENCODING_BASE64"),
+				withOpt(field("n", "int64"), "sebuf.http.int64_encoding", "INT64_ENCODING_STRING"),
+				withOpt(msgField("meta", ".t.v1.Meta"), "sebuf.http.empty_behavior", "EMPTY_BEHAVIOR_PRESERVE")))
+			rr(f)
+			addService(f, service("S", method("Get", ".t.v1.Req", ".t.v1.D")))
+		}),
 		one("empty_behavior variants on several fields", func(f M) {
 			addMessage(f, message("Meta", field("k", "string")))
 			addMessage(f, message("W", withOpt(msgField("a", ".t.v1.Meta"), "sebuf.http.empty_behavior", "EMPTY_BEHAVIOR_NULL"),
